@@ -1,3 +1,109 @@
-//! Native replay of a JIT counterexample: the real CodeCache translates the instruction, the host CPU executes the
-//! machine code, and the result is compared with the real interpreter (both on the recording bus).
-pub fn replay_jit(_a: &[String]) { println!("{{\"engine\":\"jit\",\"error\":\"not built yet\"}}"); }
+//! Native replay of a JIT counterexample: the REAL CodeCache translates the instruction (followed by a HALT so that the
+//! block ends), the host CPU executes the emitted machine code, and the result is compared with the REAL interpreter
+//! running the same block from the same state.  Both engines talk to the recording bus through the
+//! cfg(gb_dynarec_verif) hook of /repo/src/mem.rs.  This also cross-checks the x86-64 model: a counterexample that the
+//! host CPU does not reproduce is reported as "not reproduced".
+use crate::bus;
+use crate::cpu::Registers;
+use crate::emulator::Core;
+use crate::mem::MemoryAreas;
+use crate::src_any::{Replay, Src};
+
+fn hexbytes(s: &str) -> Vec<u8> { (0..s.len() / 2).map(|i| u8::from_str_radix(&s[2 * i..2 * i + 2], 16).unwrap()).collect() }
+
+fn make_core(ip: usize, bytes: &[u8]) -> Core {
+  // 32 KiB of ROM (two banks, no controller) filled with HALT so that every block ends right after the instruction
+  let mut core = Core::with_code_block(vec![0x76].into_boxed_slice());
+  let mut rom = vec![0x76u8; 0x8000];
+  for (i, b) in bytes.iter().enumerate() { if ip + i < 0x8000 { rom[ip + i] = *b; } }
+  core.memory.rom = rom.into_boxed_slice();
+  core
+}
+
+fn norm(s: u8) -> u8 { match s { 1 => 1, 2 => 2, 3 => 3, 4 | 5 => 4, _ => 0 } }
+
+/// replay-jit <b0> <b1 or -> <value>...   (values in the order the harness called kani::any())
+pub fn replay_jit(a: &[String]) {
+  let b0 = u8::from_str_radix(&a[0], 16).unwrap();
+  let cb = if a[1] == "-" { None } else { Some(u8::from_str_radix(&a[1], 16).unwrap()) };
+  let vals: Vec<Vec<u8>> = a[2..].iter().map(|s| hexbytes(s)).collect();
+  let mut src = Replay::new(vals);
+  // same order as the generated harness + jit::check_op: b1 (if not fixed), b2, bus, registers
+  let b1 = match cb { Some(c) => c, None => src.u8() };
+  let b2 = src.u8();
+  bus::setup(&mut src);
+  let start = crate::jit::any_regs(&mut src);
+  let (saf, sbc, sde, shl, ssp, sip, scyc) = (start.af, start.bc, start.de, start.hl, start.sp, start.ip, start.cycles);
+  let ip = sip as usize;
+  if ip > 0x7ffc { println!("{{\"engine\":\"jit\",\"error\":\"counterexample PC outside cartridge ROM\"}}"); return; }
+  let bytes = [b0, b1, b2];
+  let (op, len, _) = crate::decoder::decode(&bytes);
+  let terminator = op.is_block_end();
+
+  // ---- reference: the real interpreter runs the block [instruction, HALT]
+  let mut ci = make_core(ip, &bytes[..len]);
+  ci.registers = Registers { af: saf, bc: sbc, de: sde, hl: shl, sp: ssp, ip: sip, cycles: scyc };
+  bus::install_hooks();
+  bus::reset_log();
+  let st_i = crate::interpreter::run_code_block(&mut ci.registers, &mut ci.memory as *mut MemoryAreas);
+  let (ev_i, n_i) = bus::snapshot();
+
+  // ---- translated: real translate_code_block + real machine code on the host CPU
+  let mut cj = make_core(ip, &bytes[..len]);
+  cj.registers = Registers { af: saf, bc: sbc, de: sde, hl: shl, sp: ssp, ip: sip, cycles: scyc };
+  bus::reset_log();
+  let mem_ptr = cj.memory.as_ptr();
+  let address = cj.cache.translate_code_block(&cj.memory.rom, ip, mem_ptr);
+  let st_j = cj.cache.call(address, &mut cj.registers);
+  let (ev_j, n_j) = bus::snapshot();
+  bus::remove_hooks();
+
+  let (ri, rj) = (&ci.registers, &cj.registers);
+  let (iaf, ibc, ide, ihl, isp, iip, icyc) = (ri.af, ri.bc, ri.de, ri.hl, ri.sp, ri.ip, ri.cycles);
+  let (jaf, jbc, jde, jhl, jsp, jip, jcyc) = (rj.af, rj.bc, rj.de, rj.hl, rj.sp, rj.ip, rj.cycles);
+  let mut failed: Vec<&str> = vec![];
+  if iaf != jaf { failed.push("C01: AF"); }
+  if ibc != jbc { failed.push("C01: BC"); }
+  if ide != jde { failed.push("C01: DE"); }
+  if ihl != jhl { failed.push("C01: HL"); }
+  if isp != jsp { failed.push("C01: SP"); }
+  if iip != jip { failed.push("C01: PC"); }
+  if icyc != jcyc { failed.push("C02: cycles"); }
+  if norm(st_i) != norm(st_j) { failed.push("C01: status"); }
+  let wi: Vec<bus::Ev> = (0..n_i.min(bus::MAXEV)).map(|k| ev_i[k]).filter(|e| e.write).collect();
+  let wj: Vec<bus::Ev> = (0..n_j.min(bus::MAXEV)).map(|k| ev_j[k]).filter(|e| e.write).collect();
+  if wi != wj { failed.push("C01: same bus writes in the same order"); }
+  println!("{{\"engine\":\"jit\",\"block\":\"{:02x} {:02x} {:02x} (+HALT: {})\",\"start\":{{\"af\":{},\"bc\":{},\"de\":{},\"hl\":{},\"sp\":{},\"pc\":{},\"cycles\":{}}},\"failed_checks\":{:?},\"interpreter\":{{\"af\":{},\"bc\":{},\"de\":{},\"hl\":{},\"sp\":{},\"pc\":{},\"cycles\":{},\"status\":{},\"writes\":\"{:?}\"}},\"translated_on_host_cpu\":{{\"af\":{},\"bc\":{},\"de\":{},\"hl\":{},\"sp\":{},\"pc\":{},\"cycles\":{},\"status\":{},\"writes\":\"{:?}\"}},\"values_exhausted\":{}}}",
+    b0, b1, b2, !terminator, saf, sbc, sde, shl, ssp, sip, scyc, failed,
+    iaf, ibc, ide, ihl, isp, iip, icyc, st_i, wi, jaf, jbc, jde, jhl, jsp, jip, jcyc, st_j, wj, src.exhausted);
+}
+
+/// replay-frame <value>...: the frame harness draws the register file first; run the block [NOP, HALT] from that register
+/// file through the real prologue / translated block / epilogue on the host CPU and through the real interpreter.
+pub fn replay_frame(a: &[String]) {
+  let vals: Vec<Vec<u8>> = a.iter().map(|s| hexbytes(s)).collect();
+  let mut src = Replay::new(vals);
+  let start = crate::jit::any_regs(&mut src);
+  let (saf, sbc, sde, shl, ssp, sip, scyc) = (start.af, start.bc, start.de, start.hl, start.sp, start.ip & 0x3ffc, start.cycles);
+  let ip = sip as usize;
+  let bytes = [0x00u8];
+  let mut ci = make_core(ip, &bytes);
+  ci.registers = Registers { af: saf, bc: sbc, de: sde, hl: shl, sp: ssp, ip: sip, cycles: scyc };
+  bus::install_hooks();
+  let st_i = crate::interpreter::run_code_block(&mut ci.registers, &mut ci.memory as *mut MemoryAreas);
+  let mut cj = make_core(ip, &bytes);
+  cj.registers = Registers { af: saf, bc: sbc, de: sde, hl: shl, sp: ssp, ip: sip, cycles: scyc };
+  let mem_ptr = cj.memory.as_ptr();
+  let address = cj.cache.translate_code_block(&cj.memory.rom, ip, mem_ptr);
+  let st_j = cj.cache.call(address, &mut cj.registers);
+  bus::remove_hooks();
+  let (ri, rj) = (&ci.registers, &cj.registers);
+  let (iaf, ibc, ide, ihl, isp, iip, icyc) = (ri.af, ri.bc, ri.de, ri.hl, ri.sp, ri.ip, ri.cycles);
+  let (jaf, jbc, jde, jhl, jsp, jip, jcyc) = (rj.af, rj.bc, rj.de, rj.hl, rj.sp, rj.ip, rj.cycles);
+  let mut failed: Vec<&str> = vec![];
+  if iaf != jaf || ibc != jbc || ide != jde || ihl != jhl || isp != jsp || iip != jip { failed.push("C01: register file after the block differs between the engines"); }
+  if icyc != jcyc { failed.push("C02: cycle count after the block differs between the engines"); }
+  if norm(st_i) != norm(st_j) { failed.push("C01: status"); }
+  println!("{{\"engine\":\"jit-frame\",\"block\":\"NOP; HALT at {:#06x}\",\"start\":{{\"af\":{},\"bc\":{},\"de\":{},\"hl\":{},\"sp\":{},\"pc\":{},\"cycles\":{}}},\"failed_checks\":{:?},\"interpreter\":{{\"af\":{},\"bc\":{},\"de\":{},\"hl\":{},\"sp\":{},\"pc\":{},\"cycles\":{}}},\"translated_on_host_cpu\":{{\"af\":{},\"bc\":{},\"de\":{},\"hl\":{},\"sp\":{},\"pc\":{},\"cycles\":{}}}}}",
+    ip, saf, sbc, sde, shl, ssp, sip, scyc, failed, iaf, ibc, ide, ihl, isp, iip, icyc, jaf, jbc, jde, jhl, jsp, jip, jcyc);
+}
